@@ -16,9 +16,9 @@ Capi/LastError.vos Capi/LastError.vok Capi/LastError.required_vos: Capi/LastErro
 Capi/LastErrorProofs.vo Capi/LastErrorProofs.glob Capi/LastErrorProofs.v.beautified Capi/LastErrorProofs.required_vo: Capi/LastErrorProofs.v Gen/CapiEffects.vo Capi/LastError.vo Capi/Flags.vo Capi/Values.vo Capi/Pending.vo
 Capi/LastErrorProofs.vio: Capi/LastErrorProofs.v Gen/CapiEffects.vio Capi/LastError.vio Capi/Flags.vio Capi/Values.vio Capi/Pending.vio
 Capi/LastErrorProofs.vos Capi/LastErrorProofs.vok Capi/LastErrorProofs.required_vos: Capi/LastErrorProofs.v Gen/CapiEffects.vos Capi/LastError.vos Capi/Flags.vos Capi/Values.vos Capi/Pending.vos
-Capi/Pending.vo Capi/Pending.glob Capi/Pending.v.beautified Capi/Pending.required_vo: Capi/Pending.v Gen/CapiEffects.vo
-Capi/Pending.vio: Capi/Pending.v Gen/CapiEffects.vio
-Capi/Pending.vos Capi/Pending.vok Capi/Pending.required_vos: Capi/Pending.v Gen/CapiEffects.vos
+Capi/Pending.vo Capi/Pending.glob Capi/Pending.v.beautified Capi/Pending.required_vo: Capi/Pending.v Gen/CapiEffects.vo Capi/LastError.vo
+Capi/Pending.vio: Capi/Pending.v Gen/CapiEffects.vio Capi/LastError.vio
+Capi/Pending.vos Capi/Pending.vok Capi/Pending.required_vos: Capi/Pending.v Gen/CapiEffects.vos Capi/LastError.vos
 Capi/Values.vo Capi/Values.glob Capi/Values.v.beautified Capi/Values.required_vo: Capi/Values.v Gen/CapiEffects.vo Capi/Flags.vo
 Capi/Values.vio: Capi/Values.v Gen/CapiEffects.vio Capi/Flags.vio
 Capi/Values.vos Capi/Values.vok Capi/Values.required_vos: Capi/Values.v Gen/CapiEffects.vos Capi/Flags.vos
